@@ -329,7 +329,7 @@ pub fn execute(ctx: &mut Ctx, lines: &[String]) -> Vec<String> {
     let (mut d_err, mut d_out) = (0u64, 0u64);
     for (li, line) in lines.iter().enumerate() {
         let t = tokens(line);
-        let needs_logger = matches!(t[0], "SET" | "PUSH" | "POP" | "PARSENEW" | "PARSEPUSH" | "GRID" | "Q" | "LOG" | "CSTART" | "CENTER" | "CGO" | "CFINISH" | "CQUIET");
+        let needs_logger = matches!(t[0], "SET" | "PUSH" | "POP" | "PARSENEW" | "PARSEPUSH" | "GRID" | "Q" | "LOG" | "CSTART" | "CENTER" | "CGO" | "CFINISH" | "CQUIET" | "CRACE");
         let needs_spec = matches!(t[0], "DISPLAY" | "DISPLAYSORTED" | "TOML" | "EN" | "MAXLEVEL" | "INIT" | "SET" | "PUSH");
         if needs_logger && st.logger.is_none() {
             out.push("no-logger".into());
@@ -650,6 +650,59 @@ pub fn execute(ctx: &mut Ctx, lines: &[String]) -> Vec<String> {
                     }
                     _ => "blocked".into(),
                 }
+            }
+            // free-running race: in every round the threads submit their specifications at the same
+            // time (from a barrier); after all calls have returned the logger must behave like ONE of
+            // the submitted specifications as a whole — module filters, text filter and gate —
+            // judged by probe records through the facade. `CRACE <rounds> <base> <id> <id> …`
+            ["CRACE", rounds, base, ids @ ..] => {
+                let rounds: usize = rounds.parse().unwrap();
+                ctx.report.count("op.CRACE");
+                let (lg, h) = { let l = st.logger.as_ref().unwrap(); (&l.0, l.1.clone()) };
+                let probes_t: Vec<String> = { let mut v: Vec<String> = ids.iter().chain([base].into_iter()).filter_map(|id| st.abs.intended.get(*id).cloned().flatten()).flat_map(|(fs, _)| fs.into_iter().filter_map(|f| f.0)).collect(); v.push("zzz".into()); v.sort(); v.dedup(); v };
+                let msgs = ["alpha one", "beta two", "plain"];
+                let mut bad: Option<String> = None;
+                for round in 0..rounds {
+                    h.set_new_spec(st.specs[*base].clone());
+                    let barrier = Arc::new(std::sync::Barrier::new(ids.len()));
+                    let joins: Vec<_> = ids.iter().map(|id| {
+                        let sp = st.specs[*id].clone();
+                        let hh = h.clone();
+                        let b = barrier.clone();
+                        std::thread::spawn(move || { b.wait(); hh.set_new_spec(sp); std::mem::forget(hh); })
+                    }).collect();
+                    for j in joins { let _ = j.join(); }
+                    // observe
+                    let gate = lfn(log::max_level());
+                    let mut seen: Vec<bool> = Vec::new();
+                    for t in &probes_t { for l in 1..=5u64 { for m in &msgs {
+                        st.sink.lock().unwrap().clear();
+                        if level(l) <= log::max_level() {
+                            lg.log(&Record::builder().level(level(l)).target(t).module_path(Some(t.as_str())).args(format_args!("{}", m)).build());
+                        }
+                        seen.push(st.sink.lock().unwrap().iter().any(|(n, _, _)| n == "_primary"));
+                    } } }
+                    let wmax = st.writers.iter().map(|w| w.1).max().unwrap_or(0);
+                    let matches = ids.iter().any(|id| {
+                        let Some(Some((fs, rx))) = st.abs.intended.get(*id) else { return true };
+                        let rx = rx.as_ref().map(|x| regex::Regex::new(x).unwrap());
+                        let smax = fs.iter().map(|f| f.1).max().unwrap_or(0);
+                        if gate != smax.max(wmax) { return false; }
+                        let mut i = 0;
+                        for t in &probes_t { for l in 1..=5u64 { for m in &msgs {
+                            let Some(sl) = spec_level(fs, t) else { return true };
+                            let want = l <= sl && rx.as_ref().map_or(true, |x| x.is_match(m));
+                            if seen[i] != want { return false; }
+                            i += 1;
+                        } } }
+                        true
+                    });
+                    if !matches { bad = Some(format!("round {round}: after all calls returned the logger (gate {gate}) behaves like none of the submitted specifications {ids:?} as a whole")); break; }
+                }
+                std::mem::forget(h);
+                st.abs.active = None;
+                if let Some(b) = bad { ctx.report.fail(&case_id, "race-mixed-state", &format!("line {li}: {b}")); }
+                "ok".into()
             }
             // all calls have returned: consistency oracle (C12)
             ["CQUIET", tgs @ ..] => {
@@ -1352,6 +1405,24 @@ pub fn gen_c12(tier: &str, seed: u64) -> Vec<Vec<String>> {
         c.push("CFINISH 1".into());
         c.push(format!("CQUIET {grid}"));
         c.push(format!("GRID {grid}"));
+        c.push("END".into());
+        cases.push(c);
+    }
+    // free-running races: specifications that differ in module filters, maximum level AND text filter
+    for _ in 0..(if tier == "thorough" { 40 } else { 6 }) {
+        let mut r = root.fork();
+        let mut c = vec![format!("CASE spec C12 f{k}")];
+        k += 1;
+        let n = r.range(2, 3);
+        let rxs = ["alpha", "beta", "a|t"];
+        for i in 0..=n {
+            let mods = ["ma", "mb::x", "mc"];
+            let fs = format!("_:{},n{}:{}", r.range(1, 4), hexs(mods[(i % 3) as usize]), r.range(2, 5));
+            let rx = if i < n { format!("r{}", hexs(rxs[(i % 3) as usize])) } else { "_".to_string() };
+            c.push(format!("BUILD s{i} {fs} {rx}"));
+        }
+        c.push(format!("INIT s{n}"));
+        c.push(format!("CRACE {} s{n} {}", if tier == "thorough" { 600 } else { 250 }, (0..n).map(|i| format!("s{i}")).collect::<Vec<_>>().join(" ")));
         c.push("END".into());
         cases.push(c);
     }
